@@ -1359,7 +1359,11 @@ func (w *vfWorld) usageOp() {
 	case r < 12:
 		w.fund(c, 1+w.rng.Intn(3))
 	case r < 17:
-		w.debit(1+w.rng.Intn(3), w.rng.Intn(2) == 0)
+		if w.balance(1).IsZero() && w.balance(2).IsZero() && w.balance(3).IsZero() && w.rng.Intn(4) != 0 {
+			w.fund(c, 1+w.rng.Intn(3)) // nothing to spend yet
+		} else {
+			w.debit(1+w.rng.Intn(3), w.rng.Intn(2) == 0)
+		}
 	default:
 		if len(w.v1)+len(w.v2) < 10 {
 			w.renew(c, w.usage(c.v2, false), w.usage(c.v2, false))
